@@ -220,6 +220,8 @@ def opaque_setitem(ex, obj, idx, val, fr):
 
 
 def call_opaque(ex, f, args, kwargs, fr):
+    if isinstance(f, VOpaque) and f.kind == "partial":
+        return call_partial(ex, f, args, kwargs, fr)
     h = ex.cfg.lib_overrides.get(("call", getattr(f, "kind", None) or ex.cls_name(f.cls)))
     if h is not None:
         return h(ex, f, args, kwargs, fr)
